@@ -17,6 +17,7 @@ baseline's (every column except the '<method> Spatial Coverage' columns).
 from __future__ import annotations
 
 import importlib.util
+import json
 import os
 import random
 from fractions import Fraction
@@ -77,9 +78,17 @@ def gen_case(world, crng, exact=True):
                 else:
                     lo = crng.choice([-180.0, -120.0, -100.0, -99.0, -40.0, 0.0, 10.0])
                     qp = [lo, lo + crng.choice([0.0, 1.0, 12.5, 40.0, 120.0])]
-                override = (mdl, qtype, qp)
+                if qtype != "sample" and crng.random() < 0.25:
+                    qp = [qp[1], qp[0]]          # upper bound first
+                # minimum_detection_limit lists with more values than the default's one; a 4th value
+                # (DefaultSensor._min_threshold) must not matter to the default sensors
+                tail = crng.choice([[], [], [], [0.5, 1.0], [1.0, 2.0, 1e9], [0.0, 0.0, 0.0]])
+                override = (mdl, qtype, qp, tail)
             surveys.append((d, name, si, override))
-    return {"plan": plan, "days": n_days, "surveys": surveys, "exact": exact}
+    # what simulate() / a worker pool do between programs: deep copy or pickle round trip of the world
+    trips = [(crng.randrange(n_days), crng.choice(["deepcopy", "pickle"]))
+             for _ in range(crng.choice([0, 0, 0, 1, 2]))]
+    return {"plan": plan, "days": n_days, "surveys": surveys, "exact": exact, "round_trips": trips}
 
 
 def run_case(world, case, case_seed):
@@ -93,6 +102,9 @@ def run_case(world, case, case_seed):
     out = []
     for d in range(case["days"]):
         scene.day_start(d)
+        for (td, how) in case.get("round_trips", []):
+            if td == d:
+                scene.round_trip(how)
         for (sd, name, si, override) in case["surveys"]:
             if sd != d:
                 continue
@@ -115,15 +127,23 @@ def oracle_survey(ctx, res, inp):
     from harness.adapters import sensor as S
 
     scene, rec, report = res.scene, res.rec, res.report
-    name, code, si, mdl = res.name, res.code, res.si, Fraction(float(res.mdl))
+    world = scene.world
+    # the detection limit comes from the configuration handed to the method, not from the sensor object
+    cfg_mdl = world.expected_mdl(res.name, res.override)
+    name, code, si, mdl = res.name, res.code, res.si, Fraction(cfg_mdl)
     facts = {"n_vis": 0, "hidden_spatial": 0, "hidden_off": 0, "hidden_temporal": 0, "hidden_inactive": 0,
              "detected_units": 0, "undetected_nonzero_units": 0, "at_mdl": 0, "shift_below_minus_100": False,
-             "shift_just_above_minus_100": False, "rounded_sum": False, "own_probs": set(), "first_rolls": 0}
+             "shift_just_above_minus_100": False, "rounded_sum": False, "own_probs": set(), "first_rolls": 0, "emitting_flag_mismatch": False}
 
     def V(sig, what, extra=None):
         d = dict(inp)
         d["finding"] = extra
         ctx.violate(sig, what, d)
+
+    if float(res.mdl) != cfg_mdl:
+        V("C05:mdl:sensor-uses-another-limit-than-configured",
+          "the sensor's detection limit is not the first value of the configured minimum_detection_limit",
+          {"configured": cfg_mdl, "sensor": float(res.mdl), "override": res.override})
 
     returned = set()
     for _, ids in rec.detectable:
@@ -131,9 +151,14 @@ def oracle_survey(ctx, res, inp):
     truth = {}
     for (n, act) in res.before:
         em = scene.em_obj[n]
-        (act0, emitting, cov_before, tagged_before, by_before) = res.state_before[n]
+        (act0, emitting_flag, cov_before, tagged_before, by_before) = res.state_before[n]
         cov_after = res.cov_after[n]
         in_site = scene.em_place[n][0] == si
+        # emitting or not: from the configured on/off cycle of the source and the emission's first active
+        # day, not from the emission object's own flag
+        emitting = scene.expected_emitting(n, res.day)
+        if act and emitting != emitting_flag:
+            facts["emitting_flag_mismatch"] = True
         sp = rec.spatial.get(n)
         drew = sp[1] if sp else 0
         # -- scope: only members of active lists of the surveyed site are examined
@@ -161,7 +186,22 @@ def oracle_survey(ctx, res, inp):
         # -- every coverage outcome is the emission's OWN roll: the harness records each Bernoulli draw
         #    with its probability argument; what is stored at the first check must be the draw made in that
         #    very call with this emission's probability for this method (probability 0 -> 0, 1 -> 1)
-        own_p = float(em._tech_spat_cov_probs[name])
+        place = scene.em_place[n]
+        own_p = world.expected_prob("spatial", name, place[4], place[3])      # from the configuration files
+        own_t = world.expected_prob("temporal", name, place[4], place[3])
+        if float(em._tech_spat_cov_probs[name]) != own_p or float(em._tech_temp_cov_probs[name]) != own_t:
+            V("C05:coverage:emission-carries-another-probability-than-configured",
+              "an emission's coverage probability for the method is not the configured one "
+              "(sources file > sites file > method parameter)",
+              {"emission": n, "site": str(place[4]), "source": place[3], "configured": [own_p, own_t],
+               "carried": [float(em._tech_spat_cov_probs[name]), float(em._tech_temp_cov_probs[name])]})
+        td = rec.temporal_draws.get(n)
+        if td is not None:
+            tr = rec.temporal.get(n)
+            if len(td) != 1 or td[0][0] != own_t or td[0][1] != tr or (own_t == 0.0 and tr != 0) or (own_t == 1.0 and tr != 1):
+                V("C05:coverage:temporal-outcome-is-not-the-emissions-own-roll",
+                  "the temporal-coverage outcome is not a Bernoulli draw with this emission's own temporal probability",
+                  {"emission": n, "own_probability": own_t, "draws": td, "outcome": tr})
         if act and in_site:
             facts["own_probs"].add(own_p)
         if sp is not None and cov_before is None:
@@ -353,7 +393,8 @@ def oracle_survey(ctx, res, inp):
           {"zero_coverage": zero_cov, "unreachable_mdl": unreachable, "measured": float(sm), "tags": rec.tags})
     # -- zero coverage method: nothing at all may happen
     # (the probability that counts is the emission's own: sites can override the method's coverage)
-    if in_scope and all(float(scene.em_obj[n]._tech_spat_cov_probs[name]) == 0.0 for n in in_scope) and (
+    if in_scope and all(world.expected_prob("spatial", name, scene.em_place[n][4], scene.em_place[n][3]) == 0.0
+                        for n in in_scope) and (
             sm != 0 or rec.tags or rec.sensor_records or rec.tagged or returned):
         V("C05:zero-coverage:method-acted", "a method with spatial coverage 0 measured / tagged / recorded something",
           {"measured": float(sm), "tags": rec.tags})
@@ -367,14 +408,27 @@ def component_stage(ctx):
     from harness.adapters import sensor as S
 
     n_worlds = ctx.pick(8, 24)
-    n_cases = ctx.pick(550, 2000)
+    n_cases = ctx.pick(500, 1900)
+    n_hist = ctx.pick(25, 80)
     drv = core.LeanDriver("drv_sensor")
     sample_left = 3
+    first_world = None          # kept alive to be re-surveyed after all the other worlds
     for w in range(n_worlds):
         world_seed = ctx.rng.randrange(1 << 30)
-        world = S.build_world(random.Random(world_seed))
+        try:
+            world = S.build_world(random.Random(world_seed))
+        except (Exception, SystemExit) as e:
+            # an input shape the real parameter / infrastructure code rejects: an obligation of the tie is
+            # open (this world is not covered), the search goes on with the next world
+            ctx.broke("component stage: world %d could not be built" % world_seed, _tb(e))
+            continue
+        history = []
         try:
             ctx.count("worlds")
+            ctx.count("world-start:%s" % world.start.isoformat())
+            for prob in world.problems:
+                ctx.violate("C05:history:construction-depends-on-or-changes-shared-inputs", prob,
+                            {"stage": "world", "world_seed": world_seed})
             for m in world.names:
                 p = world.methods[m]
                 ctx.count("method:%s:spatial=%s:temporal=%s:%s" % (
@@ -385,7 +439,16 @@ def component_stage(ctx):
                 case_seed = ctx.rng.randrange(1 << 30)
                 exact = (ci % 5) != 4          # every fifth scene: unsnapped / off-grid, oracle only
                 case = gen_case(world, random.Random(case_seed), exact=exact)
-                results = run_case(world, case, case_seed)
+                try:
+                    results = run_case(world, case, case_seed)
+                except (Exception, SystemExit) as e:
+                    ctx.broke("component stage: real code raised in a scene", _tb(e))
+                    ctx.disagree("sensor.crash", {"stage": "component", "world_seed": world_seed,
+                                                  "case_seed": case_seed, "exact": exact}, "model total", repr(e))
+                    continue
+                if len(history) < n_hist:
+                    history.append((case_seed, exact, case_digest(results)))
+                ctx.count("round-trips", sum(1 for _ in case.get("round_trips", [])))
                 if exact:
                     lines.append("reset")
                     expected.append("ok")
@@ -424,6 +487,8 @@ def component_stage(ctx):
                         ctx.count("surveys-with:" + kf)
                 if res.rec.tags:
                     ctx.count("surveys-with:tags")
+                if facts["emitting_flag_mismatch"]:
+                    ctx.count("surveys-with:emitting-flag-differs-from-configured-cycle")
                 ctx.count("coverage-first-rolls-checked-against-own-probability", facts["first_rolls"])
                 for pr in facts["own_probs"]:
                     ctx.count("surveys-with:own-spatial-probability=%s" % pr)
@@ -443,8 +508,65 @@ def component_stage(ctx):
                 if sample_left and facts["n_vis"] and facts["hidden_spatial"]:
                     sample_left -= 1
                     ctx.sample({"request": inp["request"], "impl": il})
+            # ---- same-process history: the first scenes of this world once more, after everything else
+            #      this process has surveyed since (same emission numbers, same method names, other values)
+            rerun_history(ctx, world, world_seed, history, "after-the-other-scenes-of-its-world")
+            if not world.methods_unchanged():
+                ctx.violate("C05:history:construction-depends-on-or-changes-shared-inputs",
+                            "surveying changed the shared method parameter dictionaries",
+                            {"stage": "world", "world_seed": world_seed})
         finally:
-            world.cleanup()
+            if first_world is None:
+                first_world = (world, world_seed, history)
+            else:
+                world.cleanup()
+    if first_world is not None:
+        try:
+            if n_worlds > 1:
+                rerun_history(ctx, first_world[0], first_world[1], first_world[2], "after-all-other-worlds")
+        finally:
+            first_world[0].cleanup()
+
+
+def _tb(e):
+    import traceback
+
+    return "".join(traceback.format_exception(type(e), e, e.__traceback__))[-2500:]
+
+
+def case_digest(results):
+    """what a scene produced, survey by survey: the implementation's protocol line (exact grid) or the
+    raw report, tags and coverage store (unsnapped pass)"""
+    out = []
+    for (req, rep, res) in results:
+        if rep is not None:
+            out.append(rep)
+        else:
+            out.append(repr((res.report.site_true_rate, res.report.site_measured_rate, sorted(res.rec.tags),
+                             sorted(res.cov_after.items()), sorted(res.rec.tagged))))
+    return out
+
+
+def rerun_history(ctx, world, world_seed, history, when):
+    """a scene replays exactly from (world, case seed); its surveys must not depend on what the process
+    did before: re-run and compare with the first run"""
+    for (case_seed, exact, digest) in history:
+        case = gen_case(world, random.Random(case_seed), exact=exact)
+        try:
+            again = case_digest(run_case(world, case, case_seed))
+        except (Exception, SystemExit) as e:
+            again = ["raised " + repr(e)]
+        ctx.evaluations += 1
+        ctx.count("history:scenes-rerun:" + when)
+        if again != digest:
+            k = next((i for i, (a, b) in enumerate(zip(digest, again)) if a != b), min(len(digest), len(again)))
+            ctx.violate("C05:history:survey-outcome-depends-on-earlier-cases-in-the-process",
+                        "the same scene (same world, same seeds, hence same rolls) gave another survey outcome when "
+                        "run again later in the same process",
+                        {"stage": "history", "world_seed": world_seed, "case_seed": case_seed, "exact": exact,
+                         "when": when, "survey_index": k,
+                         "first": digest[k] if k < len(digest) else None,
+                         "again": again[k] if k < len(again) else None})
 
 
 def unsnapped_bookkeeping(ctx, res, facts):
@@ -537,6 +659,30 @@ EXPECTED_WRITERS = {("virtual_world/emission_types/emission.py", "__init__", "as
                     ("virtual_world/emission_types/emission.py", "check_spatial_cov", "setitem")}
 EXPECTED_CALLERS = {("virtual_world/component.py", "get_detectable_emissions")}
 EXPECTED_SHARED = {("virtual_world/emission_types/emission.py", "Emission", "EMIS_SUMMARY_DTYPES")}
+_ET = "virtual_world/emission_types/"
+EXPECTED_HOOKS = {
+    ("virtual_world/component.py", "Component", "__reduce__"), ("virtual_world/component.py", "Component", "_reconstruct"),
+    (_ET + "emission.py", "Emission", "__reduce__"), (_ET + "emission.py", "Emission", "__setstate__"),
+    (_ET + "emission.py", "Emission", "_reconstruct_emissions"),
+    (_ET + "intermittent_non_repairable_emission.py", "IntermittentNonRepairableEmission", "__reduce__"),
+    (_ET + "intermittent_non_repairable_emission.py", "IntermittentNonRepairableEmission", "__setstate__"),
+    (_ET + "intermittent_non_repairable_emission.py", "IntermittentNonRepairableEmission",
+     "_reconstruct_intermittent_non_repairable_emission"),
+    (_ET + "intermittent_repairable_emission.py", "IntermittentRepairableEmission", "__reduce__"),
+    (_ET + "intermittent_repairable_emission.py", "IntermittentRepairableEmission", "__setstate__"),
+    (_ET + "intermittent_repairable_emission.py", "IntermittentRepairableEmission",
+     "_reconstruct_intermittent_repairable_emission"),
+    (_ET + "non_repairable_emissions.py", "NonRepairableEmission", "__reduce__"),
+    (_ET + "non_repairable_emissions.py", "NonRepairableEmission", "__setstate__"),
+    (_ET + "non_repairable_emissions.py", "NonRepairableEmission", "_reconstruct_nonfugitive_emission"),
+    (_ET + "repairable_emission.py", "RepairableEmission", "__reduce__"),
+    (_ET + "repairable_emission.py", "RepairableEmission", "__setstate__"),
+    (_ET + "repairable_emission.py", "RepairableEmission", "_reconstruct_fugitive_emission"),
+    ("virtual_world/equipment_groups.py", "Equipment_Group", "__reduce__"),
+    ("virtual_world/equipment_groups.py", "Equipment_Group", "_reconstruct"),
+    ("virtual_world/sites.py", "Site", "__reduce__"), ("virtual_world/sites.py", "Site", "_reconstruct"),
+    ("virtual_world/sources.py", "Source", "__reduce__"), ("virtual_world/sources.py", "Source", "_reconstruct"),
+}
 
 
 def coverage_writers_table(ctx):
@@ -558,7 +704,11 @@ def coverage_writers_table(ctx):
             src = open(path).read()
             if "_tech_spat_covs" not in src and "check_spatial_cov" not in src:
                 continue
-            tree = ast.parse(src)
+            try:
+                tree = ast.parse(src)
+            except SyntaxError as e:
+                ctx.broke("table: source mentioning the coverage store does not parse", "%s: %s" % (rel, e))
+                continue
 
             def is_store(node):
                 return isinstance(node, ast.Attribute) and node.attr == "_tech_spat_covs"
@@ -585,34 +735,72 @@ def coverage_writers_table(ctx):
                     visit(ch, fn)
 
             visit(tree, "<module>")
-    # class-level mutable containers of the emission classes: state shared by all emissions of the
-    # process (a per-emission outcome kept there is not the emission's own)
-    shared = set()
-    edir = os.path.join(shim.REPO_SRC, "virtual_world", "emission_types")
-    for f in sorted(os.listdir(edir)):
-        if not f.endswith(".py"):
+    # class-level / module-level mutable containers, memoising decorators and copy hooks of every class the
+    # sensor model stands for: state shared by all objects of the process (a per-emission outcome kept
+    # there is not the emission's own) and the routes by which copies of the world are made
+    shared, hooks = set(), set()
+    hook_names = {"__deepcopy__", "__copy__", "__reduce__", "__reduce_ex__", "__getstate__", "__setstate__",
+                  "__getnewargs__", "__init_subclass__"}
+
+    def is_mutable(v):
+        return isinstance(v, (ast.Dict, ast.List, ast.Set, ast.DictComp, ast.ListComp, ast.SetComp)) or (
+            isinstance(v, ast.Call) and isinstance(v.func, ast.Name)
+            and v.func.id in ("dict", "list", "set", "defaultdict", "OrderedDict", "Counter", "deque"))
+
+    def names_of(st):
+        tg = st.targets if isinstance(st, ast.Assign) else [st.target]
+        return [t.id for t in tg if isinstance(t, ast.Name)]
+
+    modelled = []
+    for sub in (("virtual_world", "emission_types"), ("virtual_world",), ("sensors",), ("sensors", "quantification")):
+        d = os.path.join(shim.REPO_SRC, *sub)
+        if not os.path.isdir(d):
+            ctx.broke("table: modelled source directory missing", d)
             continue
-        rel = os.path.join("virtual_world", "emission_types", f)
-        for node in ast.walk(ast.parse(open(os.path.join(edir, f)).read())):
+        for f in sorted(os.listdir(d)):
+            if f.endswith(".py") and (sub != ("virtual_world",) or f in ("component.py", "equipment_groups.py", "sites.py", "sources.py")) \
+                    and (sub != ("sensors",) or f.startswith("default_")):
+                modelled.append((os.path.join(*sub, f), os.path.join(d, f)))
+    for rel, path in modelled:
+        try:
+            tree = ast.parse(open(path).read())
+        except SyntaxError as e:
+            ctx.broke("table: modelled source does not parse", "%s: %s" % (rel, e))
+            continue
+        for st in tree.body:
+            if isinstance(st, (ast.Assign, ast.AnnAssign)) and st.value is not None and is_mutable(st.value):
+                for nm in names_of(st):
+                    if nm != "__all__":
+                        shared.add((rel, "<module>", nm))
+        for node in ast.walk(tree):
             if isinstance(node, ast.ClassDef):
                 for st in node.body:
-                    if isinstance(st, (ast.Assign, ast.AnnAssign)) and st.value is not None:
-                        v = st.value
-                        mutable = isinstance(v, (ast.Dict, ast.List, ast.Set, ast.DictComp, ast.ListComp, ast.SetComp)) or (
-                            isinstance(v, ast.Call) and isinstance(v.func, ast.Name)
-                            and v.func.id in ("dict", "list", "set", "defaultdict", "OrderedDict", "Counter"))
-                        if mutable:
-                            tg = st.targets if isinstance(st, ast.Assign) else [st.target]
-                            for t in tg:
-                                if isinstance(t, ast.Name):
-                                    shared.add((rel, node.name, t.id))
-    ctx.extra["emission_class_level_containers"] = sorted(map(list, shared))
-    name = "table: class-level mutable containers of the emission classes"
-    ctx.obligations.append(name)
-    if shared == EXPECTED_SHARED:
-        ctx.discharged.append(name)
-    else:
-        ctx.broke(name, "found %s, expected %s" % (sorted(shared), sorted(EXPECTED_SHARED)))
+                    if isinstance(st, (ast.Assign, ast.AnnAssign)) and st.value is not None and is_mutable(st.value):
+                        for nm in names_of(st):
+                            shared.add((rel, node.name, nm))
+                    if isinstance(st, (ast.FunctionDef, ast.AsyncFunctionDef)):
+                        if st.name in hook_names or st.name.startswith("_reconstruct"):
+                            hooks.add((rel, node.name, st.name))
+                        for dec in st.decorator_list:
+                            dn = ast.unparse(dec)
+                            if any(k in dn for k in ("lru_cache", "cache", "cached_property", "memo")):
+                                shared.add((rel, node.name, st.name + "@" + dn))
+            elif isinstance(node, (ast.FunctionDef, ast.AsyncFunctionDef)):
+                for dec in node.decorator_list:
+                    dn = ast.unparse(dec)
+                    if any(k in dn for k in ("lru_cache", "functools.cache", "cached_property", "memo")):
+                        shared.add((rel, "<function>", node.name + "@" + dn))
+    ctx.extra["shared_mutable_state_of_modelled_classes"] = sorted(map(list, shared))
+    ctx.extra["copy_hooks_of_modelled_classes"] = sorted(map(list, hooks))
+    for name, got, want in (("table: class-/module-level mutable containers and memoisers of the modelled classes",
+                             shared, EXPECTED_SHARED),
+                            ("table: copy / pickle hooks of the modelled classes", hooks, EXPECTED_HOOKS)):
+        ctx.obligations.append(name)
+        if got == want:
+            ctx.discharged.append(name)
+        else:
+            ctx.broke(name, "found %s, expected %s (new: %s, gone: %s)" % (
+                sorted(got), sorted(want), sorted(got - want), sorted(want - got)))
     callers = {c for c in callers if not c[0].startswith("testing")}
     ctx.extra["coverage_store_writers"] = sorted(map(list, writers))
     ctx.extra["spatial_check_callers"] = sorted(map(list, callers))
@@ -633,8 +821,46 @@ KEY_COLS = ("Site ID", "Equipment", "Component", "Emissions ID")
 
 TRACE_HOOK = "harness.adapters.sensor_trace:install"
 
+# periods put into the whole-run generator on purpose: New Year's Eve into a leap year through to the
+# following February (Feb 29, Dec 31 = day 366, two year changes), Feb 28 / 29 / Mar 1, one- and two-day
+# periods (the second straddling New Year), a non-leap period not starting on Jan 1 / not ending on Dec 31
+BOUNDARY_PERIODS = [[2023, 12, 30, 368], [2024, 2, 28, 3], [2024, 12, 31, 2], [2023, 12, 31, 1], [2024, 12, 30, 367],
+                    [2022, 7, 15, 140], [2023, 7, 15, 140], [2023, 2, 27, 4]]
 
-def wholerun_config(rng, with_fix=False):
+
+def planner_drops_last_year(period):
+    """ScheduledSurveyPlanner._get_simulation_years drops the last calendar year when (start month, day) >
+    (end month, day); a survey completing in that year raises KeyError (recorded C06 finding F12, signatures
+    C06:keyerror:*).  Such a crash says nothing about C05."""
+    from datetime import date, timedelta
+
+    if not period:
+        return False
+    st = date(*period[:3])
+    en = st + timedelta(days=period[3] - 1)
+    return (st.month, st.day) > (en.month, en.day)
+
+
+def apply_shape(cfg, shape):
+    """shape = {"period": [y, m, d, ndays] | None, "reverse": bool, "n_sims": int}: boundary period,
+    programs listed in reverse order (baseline last), several simulations in one worker"""
+    from datetime import date, timedelta
+
+    if not shape:
+        return cfg
+    if shape.get("period"):
+        y, m, d, nd = shape["period"]
+        st = date(y, m, d)
+        en = st + timedelta(days=nd - 1)
+        cfg["start"], cfg["end"] = [st.year, st.month, st.day], [en.year, en.month, en.day]
+    if shape.get("reverse"):
+        cfg["programs"] = list(reversed(cfg["programs"]))
+    if shape.get("n_sims"):
+        cfg["n_sims"] = shape["n_sims"]
+    return cfg
+
+
+def wholerun_config(rng, with_fix=False, shape=None):
     """baseline + a normal program + the same program with every method's spatial coverage 0 + the
     same program with every method's MDL 1e9; with_fix: also a stationary screening method + its
     follow-up, normal and with spatial coverage 0"""
@@ -677,10 +903,10 @@ def wholerun_config(rng, with_fix=False):
     cfg["programs"] = progs
     cfg["baseline"] = "P_none"
     cfg["pre_run_hook"] = TRACE_HOOK
-    return cfg
+    return apply_shape(cfg, shape)
 
 
-def wholerun_prior_configs(rng):
+def wholerun_prior_configs(rng, shape=None):
     """(main, prior): the same generated world twice with the SAME method names; `prior` surveys with full
     coverage, `main` has a baseline and a program whose methods all have spatial coverage 0.  The worker
     runs `prior` first and `main` afterwards in the same process (emission ids coincide, probabilities differ)."""
@@ -697,7 +923,7 @@ def wholerun_prior_configs(rng):
     prior["programs"] = [{"name": "Q_none", "methods": []}, {"name": "Q_full", "methods": names}]
     prior["baseline"] = "Q_none"
     main["pre_run_hook"] = TRACE_HOOK
-    return main, prior
+    return apply_shape(main, shape), apply_shape(prior, shape)
 
 
 def trace_survey_oracle(events, methods_cfg):
@@ -863,11 +1089,11 @@ def trace_survey_oracle(events, methods_cfg):
     return F, stats
 
 
-def compare_with_baseline(res, prog):
+def compare_with_baseline(res, prog, sim=0):
     """returns (n_rows, list of differences) between prog's and the baseline's emission records;
     ignored: columns named '<method> Spatial Coverage' (present only where a method exists)"""
-    base = res.emissions("P_none", 0)
-    rows = res.emissions(prog, 0)
+    base = res.emissions("P_none", sim)
+    rows = res.emissions(prog, sim)
     if base is None or rows is None:
         return 0, [{"problem": "emissions_summary.csv missing", "program": prog}]
     diffs = []
@@ -907,38 +1133,49 @@ def wholerun_one(args):
     import shutil
     import tempfile
 
-    seed, with_fix = args
+    seed, with_fix = args[0], args[1]
+    shape = args[2] if len(args) > 2 else None
+    pool = bool(shape and shape.get("pool"))
     prior_root = None
     if with_fix == "prior":
-        cfg, prior = wholerun_prior_configs(random.Random(seed))
+        cfg, prior = wholerun_prior_configs(random.Random(seed), shape)
         prior_root = tempfile.mkdtemp(prefix="ldarverif_c05prior_")
         prior["processes"] = 1
         files, _, _ = W.materialize(prior, prior_root)
         cfg["c05_prior_files"] = files
     else:
-        cfg = wholerun_config(random.Random(seed), with_fix)
+        cfg = wholerun_config(random.Random(seed), with_fix, shape)
     try:
-        res = W.run_config(cfg, debug=True, processes=1, trace=True)
+        res = W.run_config(cfg, debug=not pool, processes=2 if pool else 1, trace=True)
     except BaseException:
         if prior_root:
             shutil.rmtree(prior_root, ignore_errors=True)
         raise
     try:
-        out = {"seed": seed, "with_fix": with_fix, "rc": res.rc, "log": res.log[-1500:] if res.rc else "",
-               "programs": {}, "small_thr": None}
+        out = {"seed": seed, "with_fix": with_fix, "shape": shape, "rc": res.rc,
+               "log": res.log[-1500:] if res.rc else "", "programs": {}, "small_thr": None}
         if with_fix and with_fix != "prior":
             out["small_thr"] = cfg["methods"]["ZF_FIX"]["follow_up"]["rolling"]["small_window_threshold"]
-        if res.rc == 0:
+        # a crash after the simulations (e.g. in the summary step) still leaves every program's records and
+        # trace: they are evaluated whenever the baseline's records exist
+        if res.rc == 0 or res.emissions("P_none", 0) is not None:
             for p in cfg["programs"]:
                 prog = p["name"]
                 if prog == "P_none":
                     continue
-                n, diffs = compare_with_baseline(res, prog)
-                events = []
-                for t in res.trace:
-                    if t.get("prog") == prog:
-                        events = t["events"]
-                findings, stats = trace_survey_oracle(events, cfg["methods"])
+                n, diffs, events, findings, stats = 0, [], [], [], None
+                for sim in range(cfg.get("n_sims", 1)):
+                    n_s, d_s = compare_with_baseline(res, prog, sim)
+                    n += n_s
+                    diffs += [dict(d, sim=sim) for d in d_s]
+                    ev = []
+                    for t in res.trace:
+                        if t.get("prog") == prog and t.get("sim") == sim:
+                            ev = t["events"]
+                    f_s, st_s = trace_survey_oracle(ev, cfg["methods"])
+                    events += ev
+                    findings += f_s
+                    stats = st_s if stats is None else {k: stats[k] + st_s[k] for k in stats}
                 out["programs"][prog] = {
                     "rows": n, "diffs": diffs[:20], "n_diffs": len(diffs),
                     "tag_events": sum(1 for e in events if e and e[0] == "tag"),
@@ -965,15 +1202,47 @@ def wholerun_oracle(ctx):
     # default small-window threshold 0.0 (whole-run reproduction of the known finding)
     # every third configuration: the zero-coverage world is simulated in a worker process that has already
     # simulated the same world with the same method names at full coverage
-    jobs = [(ctx.rng.randrange(1 << 30), "default" if i == 0 else "prior" if i % 3 == 1 else i % 2 == 0)
-            for i in range(n)]
+    jobs = []
+    for i in range(n):
+        kind = "default" if i == 0 else "prior" if i % 3 == 1 else i % 2 == 0
+        shape = {}
+        if i >= 1 and (i % 2 == 1 or not ctx.quick):
+            shape["period"] = BOUNDARY_PERIODS[(i + ctx.seed) % len(BOUNDARY_PERIODS)] if i > 1 else \
+                ctx.rng.choice(BOUNDARY_PERIODS[1:4] + BOUNDARY_PERIODS[6:])
+        if i % 2 == 1:
+            shape["reverse"] = True                 # baseline listed (and simulated) last
+        if i == 3:
+            shape["n_sims"] = 2                      # two simulations in one worker
+        if i == 5:
+            shape["pool"] = True                     # worker pool instead of the sequential debug mode
+            shape["n_sims"] = 2
+        jobs.append((ctx.rng.randrange(1 << 30), kind, shape or None))
     with ThreadPoolExecutor(max_workers=min(n, max(1, (os.cpu_count() or 2) // 2), 8)) as ex:
         outs = list(ex.map(wholerun_one, jobs))
     for out in outs:
         ctx.count("wholerun:configs")
-        inp = {"stage": "wholerun", "seed": out["seed"], "with_fix": out["with_fix"]}
-        if out["rc"] != 0:
-            raise core.InfraError("whole-run worker failed (seed %d): %s" % (out["seed"], out["log"]))
+        inp = {"stage": "wholerun", "seed": out["seed"], "with_fix": out["with_fix"], "shape": out.get("shape")}
+        ctx.count("wholerun:shape:%s" % json.dumps(out.get("shape"), sort_keys=True))
+        if out["rc"] != 0 and "KeyError" in out["log"] and "_surveys_this_year" in out["log"] \
+                and planner_drops_last_year((out.get("shape") or {}).get("period")):
+            ctx.count("wholerun:stopped-by-recorded-C06-finding-F12-keyerror (not evaluated for C05)")
+            ctx.note("whole-run seed %d, period %s: the simulator stopped with the KeyError of the recorded C06 "
+                     "finding F12 (planner years drop the trailing partial year); configuration not evaluated"
+                     % (out["seed"], out["shape"]["period"]))
+            continue
+        if out["rc"] != 0 and out["programs"] and "summarize_program_outputs" in out["log"] and "IndexError" in out["log"]:
+            # recorded C14 finding C14-zero-row-file: the summary step stops on a simulation without any emission
+            # (short periods); all simulations have finished, their records and traces are evaluated below
+            ctx.count("wholerun:summary-step-stopped-by-recorded-C14-finding-zero-row-file (programs evaluated)")
+            ctx.note("whole-run seed %d: summary step stopped (recorded C14 finding zero-row-file); program outputs evaluated"
+                     % out["seed"])
+        elif out["rc"] != 0:
+            # the simulator stopped on a generated configuration: reported as an open obligation with the
+            # configuration as input; the other configurations are still evaluated
+            ctx.broke("whole-run: simulator exited with %s on a generated configuration" % out["rc"],
+                      json.dumps(inp) + "\n" + out["log"])
+            ctx.disagree("wholerun.crash", inp, "runs to completion", "exit %s" % out["rc"])
+            continue
         ctx.traces += 1
         # ---- metamorphic clause
         for prog, what, sig in (("P_Z", "spatial coverage 0", "C05:wholerun:zero-coverage-program-differs-from-baseline"),
@@ -1015,7 +1284,7 @@ def wholerun_oracle(ctx):
         if out["with_fix"] == "prior":
             ctx.count("wholerun:configs-zero-coverage-after-full-coverage-in-same-process")
             if not out.get("prior_events"):
-                raise core.InfraError("whole-run: the prior full-coverage simulation left no trace")
+                ctx.broke("whole-run: the prior full-coverage simulation left no trace", json.dumps(inp))
             continue
         rn = out["programs"]["P_N"]
         if rn["n_diffs"]:
@@ -1038,10 +1307,16 @@ def run(ctx):
                 "non-zero units, rate == MDL present, shift < -100, tags); whole-run stage: generated configurations, "
                 "rows of emissions_summary.csv of zero-coverage / MDL-1e9 programs vs baseline")
     core.lean_stage(ctx, MODULE, FILE, drivers=["drv_sensor"])
-    coverage_writers_table(ctx)
-    component_stage(ctx)
-    flag_stage(ctx)
-    wholerun_oracle(ctx)
+    if not core.LeanDriver("drv_sensor").available():
+        raise core.InfraError("drv_sensor was not built")
+    for stage in (coverage_writers_table, component_stage, flag_stage, wholerun_oracle):
+        try:
+            stage(ctx)
+        except (Exception, SystemExit) as e:
+            # an unexpected shape of the code under test (an exception out of the real classes, a crash of
+            # a whole run, a pattern the extractor does not find) is an open obligation, not a harness
+            # failure: it is reported and the remaining stages still search for a failing input
+            ctx.broke("stage %s stopped: %s" % (stage.__name__, type(e).__name__), _tb(e))
     ctx.assumptions.append("rates / MDLs on the dyadic grid (unit 1/64 g/s), quantification shifts multiples of 25 % "
                            "(harness-side random source snapped); sensor type 'default' only")
 
@@ -1097,7 +1372,7 @@ def replay(ctx, data):
         finally:
             world.cleanup()
     elif stage == "wholerun":
-        out = wholerun_one((inp["seed"], inp.get("with_fix", False)))
+        out = wholerun_one((inp["seed"], inp.get("with_fix", False), inp.get("shape")))
         for prog, r in out["programs"].items():
             print(prog, "rows", r["rows"], "diffs", r["n_diffs"], "tags", r["tag_events"], "fuq", r["fuq_events"],
                   "non-zero reports", r["nonzero_reports"], "survey-oracle findings", len(r["findings"]))
